@@ -186,14 +186,15 @@ def INNER_TAG(agg):
     return ITE(_is(agg, "DelimitedType"), e.tag_fn(AS(agg, DELIMITED)._inner.ref), e.tag_fn(agg.ref))
 
 
-def AGG_OK(t, agg):
+def AGG_OK(t, agg, agg_deprecated=None):
     """`t` may be aggregated into `agg` (field of a composite / element of an array).  A ghost predicate of the element
     type and of what the rules look at in the aggregate: its class, the class of its inner type, its deprecation.
     Its definition by cases on the class of `t` is RULE below; every override of _check_aggregation is obligated to it."""
     if not smt():
         return _native_rule(t, agg)
     uf = _eng().uf("ghost!agg_ok", RefSort, z3.IntSort(), z3.IntSort(), z3.BoolSort(), z3.BoolSort())
-    d = DEPR(agg)
+    # `agg_deprecated`: the deprecation flag of an aggregate that is still being constructed (constructor argument)
+    d = DEPR(agg) if agg_deprecated is None else agg_deprecated
     # a service type is not serializable, hence never a field / variant / element type: part of the definition
     return AND(NOT(_is(t, "ServiceType")), uf(t.ref, TAG(agg), INNER_TAG(agg), z3.BoolVal(d) if isinstance(d, bool) else d))
 
@@ -410,6 +411,13 @@ def DIRS_SPELL(directory, comps, m):
     return all(comps[m - 1 - k] == UP(directory, k).stem for k in range(m))
 
 
+def PORT_ID_OUT_OF_RANGE(port_id, limit):
+    """a fixed port-ID is given and does not lie in 0..limit"""
+    if port_id is None:
+        return False
+    return AND(NOT(IS_NONE(port_id)), lambda: NOT(AND(0 <= VAL(port_id), VAL(port_id) <= limit)))
+
+
 def NS_COUNT(comps, has_parent_service):
     """number of namespace components that name directories: all but the short name (and but the service's own name
     for the request / response part of a service, which lives in the service's file)"""
@@ -449,7 +457,8 @@ class _CompositeInit:
     self_classes = ["StructureType", "UnionType", "DelimitedType", "ServiceType"]
     instances = [{"self._inner": ObjOf(COMPOSITE)}]  # DelimitedType assigns _inner before delegating to this constructor
     # the layout invariant of specs/c02.py is about the complete object (its _bls is assigned by the subclass constructor)
-    inv_exempt = ["SerializableType.*"]  # DelimitedType assigns _inner before delegating to this constructor
+    inv_exempt = ["SerializableType.*"]
+    publishes_args = True  # a literal attribute list (ServiceType.__init__) is kept: its fresh objects become abstract  # DelimitedType assigns _inner before delegating to this constructor
 
     def pre(s):
         n = STRIP(s.name)
@@ -464,10 +473,9 @@ class _CompositeInit:
                                                  0 <= s.version.minor, s.version.minor <= MAX_VERSION,
                                                  NOT(AND(s.version.major == 0, s.version.minor == 0)))),
         "AttributeNameCollisionError": lambda s: NAME_COLLISION(s.attributes),
-        "InvalidFixedPortIDError": lambda s: AND(NOT(IS_NONE(s.fixed_port_id)), lambda: NOT(AND(
-            0 <= VAL(s.fixed_port_id),
-            VAL(s.fixed_port_id) <= ITE(ISINST(s.self, "ServiceType"), MAX_SERVICE_ID, MAX_SUBJECT_ID)))),
-        "AggregationError": lambda s: EXISTS_IDX(s.attributes, lambda i, a: NOT(AGG_OK(a._data_type, s.self))),
+        "InvalidFixedPortIDError": lambda s: PORT_ID_OUT_OF_RANGE(
+            s.fixed_port_id, ITE(ISINST(s.self, "ServiceType"), MAX_SERVICE_ID, MAX_SUBJECT_ID)),
+        "AggregationError": lambda s: EXISTS_IDX(s.attributes, lambda i, a: NOT(AGG_OK(a._data_type, s.self, _dep_arg(s)))),
     }
 
     @staticmethod
@@ -490,10 +498,19 @@ class _CompositeInit:
             "port-id-stored": EQ(s.self._fixed_port_id, s.fixed_port_id),
             "deprecated-stored": IFF(s.self._deprecated, s.deprecated),
             "has-parent-stored": IFF(s.self._has_parent_service, s.has_parent_service),
+            # representation invariant of the name accessors (the two fields are assigned together, never again)
+            "name-components-are-the-split": _seq_eq_str(s.self._name_components, COMPONENTS(s.self._name)),
             # normal return: every attribute passed the aggregation check (the negation of the AggregationError
             # condition, stated for callers); with SERVICE_NEVER_OK: no attribute has a service type
-            "every-attribute-passed-aggregation": FORALL_IDX(s.attributes, lambda i, a: AGG_OK(a._data_type, s.self)),
+            "every-attribute-passed-aggregation": FORALL_IDX(s.attributes, lambda i, a: AGG_OK(a._data_type, s.self,
+                                                                                                 _dep_arg(s))),
         }
+
+
+def _dep_arg(s):
+    """the aggregate's deprecation flag as the constructor argument (SMT reading: the field is not assigned yet when a
+    caller evaluates the exceptional conditions)"""
+    return s.deprecated if smt() else None
 
 
 def _same_seq(a, b):
@@ -502,6 +519,10 @@ def _same_seq(a, b):
         if isinstance(a, SymSeq) and isinstance(b, SymSeq):
             # lists are total index functions plus a length: a copy shares both (the form specs/c02.py uses)
             return AND(a.length == b.length, a.arr == b.arr)
+        if isinstance(a, SymSeq) or isinstance(b, SymSeq):  # a symbolic copy of a literal list
+            sym, lit = (a, b) if isinstance(a, SymSeq) else (b, a)
+            items = lit.items if hasattr(lit, "items") else list(lit)
+            return AND(sym.length == len(items), *[z3.Select(sym.arr, k) == x.ref for k, x in enumerate(items)])
         ia = a.items if hasattr(a, "items") else list(a)
         ib = b.items if hasattr(b, "items") else list(b)
         return AND(len(ia) == len(ib), *[x.ref == y.ref for x, y in zip(ia, ib)])
@@ -1148,6 +1169,8 @@ def DEF_PORT_ID(d):
 
 def _opt_same(a, b):
     if smt():
+        if a is None or b is None:
+            return IS_NONE(a) if b is None else IS_NONE(b)
         return AND(IFF(IS_NONE(a), IS_NONE(b)), IMPLIES(NOT(IS_NONE(a)), lambda: VAL(a) == VAL(b)))
     return a == b
 
@@ -1157,36 +1180,170 @@ def ROOT_NS(t):
     return AT(COMPONENTS(t._name), 0) if smt() else t.full_name.split(".")[0]
 
 
-@contract(COMPOSITE + ".root_namespace", props=P)
+def _seq_eq_str(a, b):
+    """two lists of strings are equal element by element"""
+    if smt():
+        i = z3.FreshConst(z3.IntSort(), "i")
+        body = z3.Implies(z3.And(0 <= i, i < a.length), z3.Select(a.arr, i) == z3.Select(b.arr, i))
+        try:
+            q = z3.ForAll([i], body, patterns=[z3.Select(a.arr, i)])
+        except z3.Z3Exception:
+            q = z3.ForAll([i], body)
+        return z3.And(a.length == b.length, q)
+    return list(a) == list(b)
+
+
+# ---- name accessors of CompositeType: functions of the full name (its '.'-separated components)
+REG.classes["pydsdl." + COMPOSITE.replace("pydsdl.", "")].fields["_name_components"] = SeqOf(Str)  # C05/C15 processes only
+
+
+def FULL_NAMESPACE(t):
+    """the full namespace of a composite: its full name without the last component (ghost name of the accessor's result)"""
+    if smt():
+        return _eng().uf("ghost!full-namespace", RefSort, z3.StringSort())(t.ref)
+    return t.full_namespace
+
+
+def _repr_inv(s):
+    # established by CompositeType.__init__ (post#name-components-are-the-split); the fields are never assigned again
+    return {"name-components-are-the-split": _seq_eq_str(s.self._name_components, COMPONENTS(s.self._name))}
+
+
+_NAME_RECEIVERS = ["StructureType", "UnionType", "DelimitedType", "ServiceType"]
+
+
+@contract(COMPOSITE + ".name_components", props=P + ["C15"])
+class _NameComponents:
+    returns = SeqOf(Str)
+    self_classes = _NAME_RECEIVERS
+    definitions = _repr_inv
+
+    def post(s):
+        return {"the-components-of-the-full-name": _seq_eq_str(s.result, COMPONENTS(s.self._name))}
+
+
+@contract(COMPOSITE + ".namespace_components", props=P + ["C15"])
+class _NamespaceComponents:
+    returns = SeqOf(Str)
+    self_classes = _NAME_RECEIVERS
+    definitions = _repr_inv
+
+    def post(s):
+        c = COMPONENTS(s.self._name)
+        return {"all-but-the-last-component": AND(LEN(s.result) == LEN(c) - 1,
+                                                  FORALL_IDX(s.result, lambda i, x: x == AT(c, i)))}
+
+
+@contract(COMPOSITE + ".short_name", props=P + ["C15"])
+class _ShortName:
+    returns = Str
+    self_classes = _NAME_RECEIVERS
+    definitions = _repr_inv
+
+    def post(s):
+        c = COMPONENTS(s.self._name)
+        return {"last-component": EQ(s.result, AT(c, LEN(c) - 1))}
+
+
+@contract(COMPOSITE + ".root_namespace", props=P + ["C15"])
 class _RootNamespace:
     returns = Str
-    verify = False
-    assumed = ("CompositeType.root_namespace is name_components[0], and name_components is full_name.split('.') "
-               "(assigned once in CompositeType.__init__); the list field itself is not modelled")
+    self_classes = _NAME_RECEIVERS
+    definitions = _repr_inv
 
     def post(s):
         return {"first-component": EQ(s.result, ROOT_NS(s.self))}
 
 
-_SERVICE_ERRORS = {"InvalidNameError": None, "InvalidVersionError": None, "AttributeNameCollisionError": None,
-                   "InvalidFixedPortIDError": None, "AggregationError": None}
+@contract(COMPOSITE + ".full_namespace", props=P + ["C15"])
+class _FullNamespace:
+    """`'.'.join(namespace_components)`; at call sites the result is named FULL_NAMESPACE(self)."""
+    returns = Str
+    self_classes = _NAME_RECEIVERS
+    definitions = _repr_inv
+    value = staticmethod(lambda s: FULL_NAMESPACE(s.self))
+
+    def post(s):
+        c = COMPONENTS(s.self._name)
+        r = COMPONENTS(s.result)
+        ok = AND(LEN(c) >= 2, FORALL_IDX(c, lambda i, x: NOT(z3.Contains(x, z3.StringVal(".")) if smt() else "." in x)))
+        return {"components-are-all-but-the-last": IMPLIES(LEN(c) >= 2, lambda: AND(
+            LEN(r) == LEN(c) - 1, FORALL_IDX(r, lambda i, x: x == AT(c, i))))}
+
+
+# ---- ServiceType.__init__
+def SERVICE_PARTS_CONSISTENT(rq, rs):
+    """The consistency clause of ServiceType.__init__ (an internal error otherwise): both parts live in the namespace named
+    after the service, have the same version / deprecation / source file, no port-ID of their own, are marked as parts of a
+    service, and are not services themselves."""
+    ns = FULL_NAMESPACE(rq)
+    if smt():
+        pre = lambda t: z3.PrefixOf(ns, t._name)
+    else:
+        pre = lambda t: t.full_name.startswith(ns)
+    return AND(pre(rq), pre(rs), EQ(rq._version, rs._version), NOT(ISINST(rq, "ServiceType")), NOT(ISINST(rs, "ServiceType")),
+               IFF(rq._deprecated, rs._deprecated), EQ(rq._source_file_path, rs._source_file_path),
+               IS_NONE(rq._fixed_port_id), IS_NONE(rs._fixed_port_id), rq._has_parent_service, rs._has_parent_service)
+
+
+class _SvcView:
+    """the arguments ServiceType.__init__ hands to CompositeType.__init__, for reuse of its rule predicates"""
+
+    def __init__(self, s):
+        self.name = FULL_NAMESPACE(s.request)
+        self.source_file_path = s.request._source_file_path
+        self.has_parent_service = False
 
 
 @contract(SERVICE + ".__init__", props=P)
-class _ServiceInitAssumed:
-    """Used, not verified: a service is a composite whose attributes are its request / response parts; the port-ID is
-    passed to CompositeType.__init__ unchanged (service-ID range checked there, verified above for a ServiceType receiver)."""
+class _ServiceInit:
+    """A service is a composite whose two attributes are its parts, named `request` and `response`; name, version,
+    deprecation and source file are those of the request part; the port-ID is checked against the service-ID range by
+    CompositeType.__init__ (verified above for a ServiceType receiver)."""
     params = dict(request=ObjOf(COMPOSITE), response=ObjOf(COMPOSITE), fixed_port_id=Opt(Int))
-    verify = False
-    assumed = ("ServiceType.__init__: consistency check of the two parts (ValueError, an internal error), then "
-               "CompositeType.__init__(name=request.full_namespace, ..., fixed_port_id=fixed_port_id); body not verified "
-               "(needs a model of full_namespace / str.join); only `port-ID stored as given` and the name relation are used")
-    raises = dict(_SERVICE_ERRORS, ValueError=None)
+    raises = {
+        "ValueError": lambda s: NOT(SERVICE_PARTS_CONSISTENT(s.request, s.response)),
+        "InvalidNameError": lambda s: AND(SERVICE_PARTS_CONSISTENT(s.request, s.response), lambda: _CompositeInit.bad_name(_SvcView(s))),
+        "InvalidFixedPortIDError": lambda s: PORT_ID_OUT_OF_RANGE(s.fixed_port_id, MAX_SERVICE_ID),
+        "AggregationError": lambda s: OR(NOT(AGG_OK(s.request, s.self, s.request._deprecated)),
+                                         NOT(AGG_OK(s.response, s.self, s.request._deprecated))),
+    }
+    # what __init__ does NOT establish: that the parts are named <service>.Request / <service>.Response (only
+    # DataTypeBuilder.finalize names them so; ServiceType.__init__ checks a prefix relation only)
+    inv_exempt = ["ServiceType.parts-name", "SerializableType.*"]
+
+    def definitions(s):
+        # instances of the definition of valid-name at the two literal attribute names
+        return {"valid-name(request)": IFF(VALID_NAME("request"), VALID_NAME_RULE("request")),
+                "valid-name(response)": IFF(VALID_NAME("response"), VALID_NAME_RULE("response"))}
+
+    def pre(s):
+        # the parts are complete composites: a namespace with at least ... (their own constructor checked the name)
+        return {}
 
     def post(s):
-        return {"port-id-stored": _opt_same(s.self._fixed_port_id, s.fixed_port_id),
-                "parts-stored": AND(s.self._request_type.ref == s.request.ref, s.self._response_type.ref == s.response.ref)
-                if smt() else (s.self._request_type is s.request and s.self._response_type is s.response)}
+        me, rq, rs = s.self, s.request, s.response
+        attrs = me._attributes
+        return {
+            "parts-stored": AND(me._request_type.ref == rq.ref, me._response_type.ref == rs.ref) if smt()
+            else (me._request_type is rq and me._response_type is rs),
+            "two-attributes-request-response": AND(
+                LEN(attrs) == 2, lambda: AND(
+                    ISINST(AT(attrs, 0), "Field"), ISINST(AT(attrs, 1), "Field"),
+                    EQ(AT(attrs, 0)._name, "request"), EQ(AT(attrs, 1)._name, "response"),
+                    (AT(attrs, 0)._data_type.ref == rq.ref) if smt() else AT(attrs, 0)._data_type is rq,
+                    (AT(attrs, 1)._data_type.ref == rs.ref) if smt() else AT(attrs, 1)._data_type is rs)),
+            "name-is-the-parts-namespace": EQ(me._name, STRIP(FULL_NAMESPACE(rq))),
+            "version-deprecation-of-the-parts": AND(EQ(me._version, rq._version), IFF(me._deprecated, rq._deprecated)),
+            "port-id-stored": _opt_same(me._fixed_port_id, s.fixed_port_id),
+            "service-id-range": NOT(PORT_ID_OUT_OF_RANGE(s.fixed_port_id, MAX_SERVICE_ID)),
+            "not-a-part-itself": NOT(me._has_parent_service),
+            "parts-consistent": SERVICE_PARTS_CONSISTENT(rq, rs),
+        }
+
+
+_SERVICE_ERRORS = {"InvalidNameError": None, "InvalidVersionError": None, "AttributeNameCollisionError": None,
+                   "InvalidFixedPortIDError": None, "AggregationError": None}
 
 
 def _mode_known(sec):
@@ -1208,7 +1365,10 @@ class _Finalize:
         "InvalidDefinitionError": None,  # the common base class of the rule-specific errors (see _make_composite)
     })
     raises_if = {"UnregulatedFixedPortIDError": lambda s: NOT(s.self._allow_unregulated_fixed_port_id)}  # one-sided
-    may_raise = ["ValueError"]  # ServiceType.__init__'s internal consistency error (see _ServiceInitAssumed)
+    # ServiceType.__init__'s internal consistency error (two-sided in its own contract, `_ServiceInit`); that finalize
+    # always builds consistent parts cannot be derived here: the constructor contracts used for the parts do not say
+    # which name / version / flags are stored
+    may_raise = ["ValueError"]
 
     def pre(s):
         return {"mode-is-sealed-or-delimited": AND(*[_mode_known(sec) for sec in c03.SECS(s.self)])}
